@@ -4,11 +4,11 @@ namespace Golib.Gen.C19
 
 def extractorOK : Bool := true
 
-def limiterFields : List String := ["c:chanstruct{}", "w:sync.WaitGroup", "panicHandler:func(any)", "once:sync.Once", "run:func(fnfunc())"]
+def limiterFields : List String := ["c:chanstruct{}", "w:sync.WaitGroup", "panicHandler:func(any)"]
 
 def newLimiterBody : List String := ["if(limit<1){limit=3}", "return &Limiter{c:make(chanstruct{},limit),}"]
 
-def goBody : List String := ["l.once.Do(…)", "l.add()", "go l.run(…)", "return l"]
+def goBody : List String := ["l.add()", "go Recover(fn,l.panicHandler,l.done)", "return l"]
 
 def addBody : List String := ["send l.c", "l.w.Add(1)"]
 
